@@ -1,6 +1,7 @@
 import SeqVerif.Base.Proto
 import SeqVerif.Model.EvalTree
 import SeqVerif.Model.ActiveIndex
+import SeqVerif.Model.RangeGo
 /-!
 Driver for C02.  Lists are comma separated, `-` = empty; byte strings hex.  LID lists of `nodes`/`ortree`
 are given in iteration order (descending for `desc`).
@@ -9,6 +10,7 @@ are given in iteration order (descending for `desc`).
   nodes not <asc|desc> <xs> <lo> <hi>               -> ok <lids>
   nodes range <asc|desc> <lo> <hi>                  -> ok <lids>
   ortree <asc|desc> <l1;l2;...>                     -> ok <lids>
+  rangego <asc|desc> <lo> <hi> <fuel>               -> ok <values> <ended 0|1>   (nodeRange with Go's int/uint32)
   borders <from> <to> <ids mid:rid,...>             -> ok <minLID> <maxLID>
   eval <asc|desc> <lo> <hi> <toks> <query>          -> ok <lids>
   search <asc|desc> <from> <to> <limit> <withTotal> <ids> <toks> <query>   -> ok <ids> <total>
@@ -115,6 +117,12 @@ def step (line : String) : String :=
   | ["nodes", "not", dir, xs, lo, hi] =>
     match parseRev dir, natList? xs, lo.toNat?, hi.toNat? with
     | some rev, some xs, some lo, some hi => s!"ok {fmtNats (notNode rev xs lo hi)}"
+    | _, _, _, _ => "bad-op"
+  | ["rangego", dir, lo, hi, fuel] =>
+    match parseRev dir, lo.toNat?, hi.toNat?, fuel.toNat? with
+    | some rev, some lo, some hi, some fuel =>
+      let r := RangeGo.drain rev (RangeGo.newRange rev lo hi).1 fuel (RangeGo.newRange rev lo hi).2
+      s!"ok {fmtNats r.1} {fmtBool r.2}"
     | _, _, _, _ => "bad-op"
   | ["ortree", dir, ls] =>
     match parseRev dir, (splitList ls ";").mapM (natList? ·) with
